@@ -205,9 +205,23 @@ def r15_3(ctx):
         obs = {"raises" if o.kind == "raise" else "returns" for o in outs}
         ctx.check(f"type keyword {lit}", obs == {"raises"}, "raises (not a supported shortcode type)", str(sorted(obs)), fn_where(idx, f3), nontrivial=False)
     # explicit translation decisions in sub_routine
-    sr = idx.func("RZILTransformer.sub_routine")
-    consts = sorted({n.comparators[0].value for n in ast.walk(sr.node) if isinstance(n, ast.Compare) and U(n.left) == "routine_name" and isinstance(n.ops[0], ast.Eq) and isinstance(n.comparators[0], ast.Constant)})
-    ctx.check("names mapped to a no-op on purpose", consts == ["MEM_STORE0", "fatal"], "['MEM_STORE0', 'fatal']", str(consts), fn_where(idx, sr))
+    # (evaluated, not read off the text: exactly `fatal` and `MEM_STORE0` are dropped, every other callee is translated or rejected)
+    from sa.cbmodel import Runner
+
+    got = {}
+    for nm in ("fatal", "MEM_STORE0", "fatal_error", "fatality", "MEM_STORE1", "MEM_STORE", "g_assert_not_reached", "abort", "nop", "f"):
+        r = Runner(idx)
+        r.summarised = r.summarised | {"c_call"}
+        r.s_c_call = lambda interp, args, kwargs: AObj("Call", {}, label="LEGACY_CALL", opaque=True)
+        sr, outs = r.run("sub_routine", lambda nm=nm: [nm, r.pure("items[1]")], self_over=lambda: {"sub_routines": {}})
+        kinds = set()
+        for o in outs:
+            v = o.value
+            kinds.add("raise" if o.kind == "raise" else "dropped" if isinstance(v, AObj) and v.cls in ("Empty", "NOP") else "translated")
+        got[nm] = "/".join(sorted(kinds))
+    dropped = sorted(k for k, v in got.items() if v == "dropped")
+    ctx.check("names mapped to a no-op on purpose", dropped == ["MEM_STORE0", "fatal"] and all(v in ("dropped", "translated", "raise") for v in got.values()), "['MEM_STORE0', 'fatal'] dropped, everything else handed on",
+              str(got), fn_where(idx, sr))
 
 
 @rule("R15.4", "C15", "sequence builders lose nothing: Sequence keeps every effect, the top level sequences every statement, flushed sequences are the ones used", min_instances=10)
